@@ -132,20 +132,22 @@ def nextSiblingPort (lang : Lang) (fuel : Nat) (root self : NodeRef) (anon : Boo
             | none => none
   go (fuel + 1) (nodeParent lang fuel root self) none
 
-/-- `ts_subtree_has_trailing_empty_descendant(self, other)`. -/
-def hasTrailingEmptyDescendant (fuel : Nat) (self other : Tree) : Bool :=
-  match fuel with
-  | 0 => false
-  | fuel + 1 =>
-    let rec back : List Tree → Bool
-      | [] => false
-      | c :: rest =>
-        if c.totalBytes > 0 then false
-        else
-          let same := (c.data.addr != 0 && c.data.addr == other.data.addr) ||
-                      (c.data.addr == 0 && other.data.addr == 0 && decide (c.data = other.data))
-          if same || hasTrailingEmptyDescendant fuel c other then true else back rest
-    back self.kids.reverse
+/-- The loop of `ts_subtree_has_trailing_empty_descendant` over the children from the right; `inner` is
+the recursive call (one level less fuel). -/
+def tedBack (inner : Tree → Tree → Bool) (other : Tree) : List Tree → Bool
+  | [] => false
+  | c :: rest =>
+    if c.totalBytes > 0 then false
+    else
+      let same := (c.data.addr != 0 && c.data.addr == other.data.addr) ||
+                  (c.data.addr == 0 && other.data.addr == 0 && decide (c.data = other.data))
+      if same || inner c other then true else tedBack inner other rest
+
+/-- `ts_subtree_has_trailing_empty_descendant(self, other)` (structural in the fuel, so that it
+evaluates inside proofs). -/
+def hasTrailingEmptyDescendant : Nat → Tree → Tree → Bool
+  | 0, _, _ => false
+  | fuel + 1, self, other => tedBack (hasTrailingEmptyDescendant fuel) other self.kids.reverse
 
 /-- `ts_node__prev_sibling(self, include_anonymous)`. -/
 def prevSiblingPort (lang : Lang) (fuel : Nat) (root self : NodeRef) (anon : Bool) : Option NodeRef :=
@@ -530,6 +532,65 @@ def psPathOK (lang : Lang) (self : NodeRef) : NodeRef → List Nat → Bool
     | some rc => rest.isEmpty || (rc.node.id != self.id && psPathOK lang self rc.node rest)
     | none => false
 
+/-! ### Runtime side of the ZERO-WIDTH sibling theorems (`SiblingZw.lean`) -/
+
+/-- Extra hypothesis of `next_sibling_spec_empty` (self EMPTY at byte `x`, on top of `nsPathOK`).
+For an empty `self` the C scan classifies a child by the STRICT test `child_start < x`; an ancestor
+`a` on the path that STARTS at `x` (so `self` is its first, empty, descendant) and extends beyond
+`x` is therefore not a "child containing the target" but a "later child": the scan breaks at it and
+descends into it WITHOUT having looked at the siblings after `a`, which are lost for the rest of the
+search.  The answer is still right exactly when the search inside `a` succeeds, i.e. something
+visible follows `self` inside `a` — or when there was nothing to lose (no visible node after `a` at
+its level).  Such an `a` must also be hidden (else it would be returned itself). -/
+def nsZwOK (lang : Lang) (self : NodeRef) : NodeRef → List Nat → Bool
+  | _, [] => true
+  | n, k :: rest =>
+    match (rawChildren lang n)[k]? with
+    | some rc =>
+      rest.isEmpty ||
+        ((if rc.node.startByte == self.startByte && decide (self.endByte < rc.posAfter.bytes) then
+            !rc.node.relevant lang true &&
+              (!(laterOnPath lang rc.node rest).isEmpty ||
+                (enumKids lang n.t.data.productionId (n.t.kids.drop (k + 1)) (if rc.node.t.data.extra then rc.si else rc.si + 1)).isEmpty)
+          else true) && nsZwOK lang self rc.node rest)
+    | none => false
+
+/-- The scan of `ts_node__prev_sibling` passes over a child ending at `e` (and remembers it as the
+"earlier child"): it ends strictly before `self` ends, or exactly there while `self` has no bytes at
+all and `ts_subtree_has_trailing_empty_descendant(child, self)` is false. -/
+def posPass (fuel : Nat) (self : NodeRef) (t : Tree) (e : Nat) : Bool :=
+  decide (e < self.endByte) || (e == self.endByte && self.t.totalBytes == 0 && !hasTrailingEmptyDescendant fuel t self.t)
+
+/-- The scan stops at a child ending at `e` as "the child containing the target". -/
+def posStop (fuel : Nat) (self : NodeRef) (t : Tree) (e : Nat) : Bool :=
+  decide (e > self.endByte) || (e == self.endByte && (!(self.t.totalBytes == 0) || hasTrailingEmptyDescendant fuel t self.t))
+
+mutual
+  /-- Every raw node of the subtree placed at byte `st` (itself included) is passed over (`posPass`). -/
+  def passIn (fuel : Nat) (self : NodeRef) : Tree → Nat → Bool
+    | .mk d kids, st => posPass fuel self (.mk d kids) (st + d.size.bytes) && passInL fuel self kids st true
+  def passInL (fuel : Nat) (self : NodeRef) : List Tree → Nat → Bool → Bool
+    | [], _, _ => true
+    | c :: rest, pos, first =>
+      passIn fuel self c (if first then pos else pos + c.data.padding.bytes) &&
+        passInL fuel self rest ((if first then pos else pos + c.data.padding.bytes) + c.data.size.bytes) false
+end
+
+/-- Hypothesis of `prev_sibling_spec_general` about positions (on top of `psPathOK`, which is about
+slot ids): along the path every earlier sibling — and every raw node inside it — is passed over by
+the scan, and the scan stops at every proper ancestor.  For a NON-EMPTY `self` (and for an empty one
+with padding) this always holds; for a `self` without any bytes it says that
+`ts_subtree_has_trailing_empty_descendant(·, self)` — which compares subtree POINTERS, inline leaves
+by value, and gives up at the first non-empty child from the right — is true for the ancestors that
+end where `self` lies and false for everything before `self` that ends there. -/
+def psZwOK (lang : Lang) (fuel : Nat) (self : NodeRef) : NodeRef → List Nat → Bool
+  | _, [] => true
+  | n, k :: rest =>
+    passInL fuel self (n.t.kids.take k) n.start.bytes true &&
+    match (rawChildren lang n)[k]? with
+    | some rc => rest.isEmpty || (posStop fuel self rc.node.t rc.posAfter.bytes && psZwOK lang fuel self rc.node rest)
+    | none => false
+
 /-- Evaluation of the hypotheses of `parent_spec_partial` / `child_with_descendant_spec_partial`
 on a real tree: over every relevant node below the root, `checked` = non-empty nodes whose path
 satisfies `pathOK` (slot ids distinct along the search) and for which
@@ -594,17 +655,56 @@ structure SiblingHyp where
   poutside : Nat := 0
   pbad : Nat := 0
   prevs : List (Nat × Option (NodeData × Nat)) := []
+  /-- ZERO-WIDTH nodes (`next_sibling_spec_empty`, hypotheses `nsPathOK` + `nsZwOK`) -/
+  zchecked : Nat := 0
+  zoutside : Nat := 0
+  zbad : Nat := 0
+  /-- ZERO-WIDTH nodes (`prev_sibling_spec_general`, hypotheses `psPathOK` + `psZwOK`) -/
+  zpchecked : Nat := 0
+  zpoutside : Nat := 0
+  zpbad : Nat := 0
+  /-- why zero-width nodes are outside: next — parent/id hypotheses, `nsPathOK` (a zero-width raw node
+  follows at the same byte), `nsZwOK`; prev — parent/id hypotheses, `psPathOK`, `psZwOK` -/
+  zwhy : Nat × Nat × Nat × Nat × Nat × Nat := (0, 0, 0, 0, 0, 0)
+  /-- non-empty nodes for which `psZwOK` (always true for them, `psZwOK_of_nonempty`) evaluates to false -/
+  pgenbad : Nat := 0
 
 def siblingHyp (lang : Lang) (root : NodeRef) : SiblingHyp :=
   (pathsOf root.t).foldl (init := {}) fun acc p =>
     match nodeAt lang root p with
     | none => { acc with bad := acc.bad + 1 }
     | some d =>
-      if !d.relevant lang true || d.startByte == d.endByte then acc
+      if !d.relevant lang true then acc
+      else if d.startByte == d.endByte then
+        -- zero-width node: `next_sibling_spec_empty` / `prev_sibling_spec_general` (+ `parent_spec_empty`)
+        let (par, q) := parentSplit lang (root, p) root p
+        let fuel := root.t.size + 1
+        let parOK := par.id == (parentOnPath lang root root p).id && hiddenPath lang par q &&
+          (match nodeAt lang par q with | some x => x.id == d.id | none => false) && psPathOK lang d root p
+        let acc :=
+          if !(parOK && nsPathOK lang d par q && nsZwOK lang d par q) then
+            let (a, b, c, x, y, z) := acc.zwhy
+            { acc with zoutside := acc.zoutside + 1,
+                       zwhy := if !parOK then (a + 1, b, c, x, y, z) else if !nsPathOK lang d par q then (a, b + 1, c, x, y, z) else (a, b, c + 1, x, y, z) }
+          else
+            let exp : Option (NodeData × Nat) := ((laterOnPath lang par q).head?).map fun x => (x.1.data, x.2)
+            let got : Option (NodeData × Nat) := (nextSiblingPort lang fuel root d true).map fun r => (r.t.data, r.alias)
+            if decide (got = exp) then { acc with zchecked := acc.zchecked + 1, nexts := (d.id, exp) :: acc.nexts }
+            else { acc with zbad := acc.zbad + 1 }
+        if !(parOK && psPathOK lang d par q && psZwOK lang fuel d par q) then
+          let (a, b, c, x, y, z) := acc.zwhy
+          { acc with zpoutside := acc.zpoutside + 1,
+                     zwhy := if !parOK then (a, b, c, x + 1, y, z) else if !psPathOK lang d par q then (a, b, c, x, y + 1, z) else (a, b, c, x, y, z + 1) }
+        else
+          let exp : Option (NodeData × Nat) := ((earlierOnPath lang par q).getLast?).map fun x => (x.1.data, x.2)
+          let got : Option (NodeData × Nat) := (prevSiblingPort lang fuel root d true).map fun r => (r.t.data, r.alias)
+          if decide (got = exp) then { acc with zpchecked := acc.zpchecked + 1, prevs := (d.id, exp) :: acc.prevs }
+          else { acc with zpbad := acc.zpbad + 1 }
       else
         let (par, q) := parentSplit lang (root, p) root p
         let parOK := par.id == (parentOnPath lang root root p).id && hiddenPath lang par q &&
           (match nodeAt lang par q with | some x => x.id == d.id | none => false)
+        let acc := if psPathOK lang d par q && !psZwOK lang (root.t.size + 1) d par q then { acc with pgenbad := acc.pgenbad + 1 } else acc
         let acc :=
           if !(nsPathOK lang d par q) then { acc with outside := acc.outside + 1 }
           else
@@ -681,6 +781,64 @@ def dfrIdeal (lang : Lang) (rs re : Nat) : Nat → NodeRef → NodeRef → NodeR
     | none => last
     | some rc => dfrIdeal lang rs re f rc.node (if rc.node.relevant lang true then rc.node else last)
 
+/-! ### Runtime side of the NAMED / POINT variants (`NavVariants.lean`) -/
 
+/-- `dfrIdeal` for either relevance (`anon = false`: `ts_node_named_descendant_for_byte_range`). -/
+def dfrIdealA (lang : Lang) (anon : Bool) (rs re : Nat) : Nat → NodeRef → NodeRef → NodeRef
+  | 0, _, last => last
+  | f + 1, node, last =>
+    match (rawChildren lang node).find? (spans rs re) with
+    | none => last
+    | some rc => dfrIdealA lang anon rs re f rc.node (if rc.node.relevant lang anon then rc.node else last)
+
+/-- Does the raw child span the POINT range `[rs, re]` (row/column order)? -/
+def spansP (rs re : TSPoint) (rc : RawChild) : Bool := point_lte rc.node.start.extent rs && point_lte re rc.posAfter.extent
+
+/-- The plain search in row/column order (`ts_node_(named_)descendant_for_point_range`). -/
+def dfrIdealP (lang : Lang) (anon : Bool) (rs re : TSPoint) : Nat → NodeRef → NodeRef → NodeRef
+  | 0, _, last => last
+  | f + 1, node, last =>
+    match (rawChildren lang node).find? (spansP rs re) with
+    | none => last
+    | some rc => dfrIdealP lang anon rs re f rc.node (if rc.node.relevant lang anon then rc.node else last)
+
+mutual
+  /-- `fcbNode` for either relevance (`anon = false`: `ts_node_first_named_child_for_byte`): a child
+  that is not relevant is entered when it has VISIBLE children (the C code tests `ts_node_child_count`,
+  not the named count) and ends after `goal`. -/
+  def fcbNodeA (lang : Lang) (anon : Bool) (goal : Nat) : Tree → Length → Option NodeRef
+    | .mk d kids, start => fcbKidsA lang anon goal d.productionId d.addr kids.length kids start 0 0
+  def fcbKidsA (lang : Lang) (anon : Bool) (goal pid addr nk : Nat) : List Tree → Length → Nat → Nat → Option NodeRef
+    | [], _, _, _ => none
+    | c :: rest, pos, si, k =>
+      let cstart := if k > 0 then length_add pos c.data.padding else pos
+      let node : NodeRef := { t := c, alias := (if c.data.extra then 0 else lang.aliasAt pid si), id := slotId addr nk k, start := cstart }
+      let next := fcbKidsA lang anon goal pid addr nk rest (length_add cstart c.data.size) (if c.data.extra then si else si + 1) (k + 1)
+      if node.endByte > goal then
+        if node.relevant lang anon then some node
+        else if node.childCount > 0 then
+          match fcbNodeA lang anon goal c cstart with
+          | some r => some r
+          | none => next
+        else next
+      else next
+end
+
+mutual
+  /-- "No dead end" for either relevance (see `ndeNode`). -/
+  def ndeNodeA (lang : Lang) (anon : Bool) (goal : Nat) : Tree → Length → Bool
+    | .mk d kids, start => ndeKidsA lang anon goal d.productionId d.addr kids.length kids start 0 0
+  def ndeKidsA (lang : Lang) (anon : Bool) (goal pid addr nk : Nat) : List Tree → Length → Nat → Nat → Bool
+    | [], _, _, _ => true
+    | c :: rest, pos, si, k =>
+      let cstart := if k > 0 then length_add pos c.data.padding else pos
+      let node : NodeRef := { t := c, alias := (if c.data.extra then 0 else lang.aliasAt pid si), id := slotId addr nk k, start := cstart }
+      let next := ndeKidsA lang anon goal pid addr nk rest (length_add cstart c.data.size) (if c.data.extra then si else si + 1) (k + 1)
+      if node.endByte > goal then
+        if node.relevant lang anon then true
+        else if node.childCount > 0 then (fcbNodeA lang anon goal c cstart).isSome && ndeNodeA lang anon goal c cstart
+        else next
+      else next
+end
 
 end TsVerif.C06
